@@ -40,26 +40,32 @@ def extract_bis():
     rules = [
         (r"^  using T  = std::decay_t<decltype\(t\)>;\n", "", 1),
         (r"^  using Rv = std::ranges::range_value_t<std::decay_t<decltype\(r\)>>;\n", "", 1),
-        (r"auto left = std::ranges::cbegin\(r\);", "const double *left = r;", 1),
-        (r"auto rght = std::ranges::cend\(r\);", "const double *rght = r + n;", 1),
+        (r"auto (\w+) = std::ranges::cbegin\(r\);", r"const elem_t *\1 = r;", 1),
+        (r"auto (\w+) = std::ranges::cend\(r\);", r"const elem_t *\1 = r + n;", 1),
         (r"std::ranges::empty\(r\)", "(n == 0)", 1),
-        (r"wo\(\*left, t\) > 0", "(*left > t)", 1),
-        (r"wo\(\*\(rght - 1\), t\) <= 0", "(*(rght - 1) <= t)", 1),
-        (r"wo\(\*next\(pivot\), t\) <= 0", "(*(pivot + 1) <= t)", 1),
-        (r"wo\(\*pivot, t\) > 0", "(*pivot > t)", 1),
-        (r"auto pivot = left;", "const double *pivot = left;", 1),
+        (r"\*next\((\w+)\)", r"*(\1 + 1)", 1),
+        # std::weak_ordering / partial_ordering results compared with 0 (on NaN-free data)
+        (r"wo\(([^,]+), t\) > 0", r"(\1 > t)", 2),
+        (r"wo\(([^,]+), t\) <= 0", r"(\1 <= t)", 2),
+        (r"auto pivot = (\w+);", r"const elem_t *pivot = \1;", 1),
         (r"if constexpr \(std::is_convertible_v<Rv, double> && std::is_convertible_v<T, double>\) \{", "{", 1),
-        (r"alpha = \(static_cast<double>\(t\) - static_cast<double>\(\*left\)\) / static_cast<double>\(\*\(rght - 1\) - \*left\);",
-         "alpha = stub_div(stub_sub(t, *left), stub_sub(*(rght - 1), *left));", 1),
-        (r"const auto dist = static_cast<double>\(std::distance\(left, rght - 1\)\);", "const intptr_t dist = (rght - 1) - left;", 1),
-        (r"pivot           = std::ranges::next\(left, static_cast<std::intptr_t>\(alpha \* dist\), rght - 2\);",
-         "pivot = ranges_next(left, stub_trunc_mul(alpha, dist), rght - 2);", 1),
-        (r"  while \(left \+ 1 < rght\) \{", "  while (left + 1 < rght)\n  LOOP_CONTRACT\n  {", 1),
+        (r"\(static_cast<double>\(([^()]+)\) - static_cast<double>\(([^()]+)\)\) / static_cast<double>\((\*\([^()]+\)|[^()\s]+) - ([^()]+)\);",
+         r"stub_div(stub_sub(\1, \2), stub_sub(\3, \4));", 1),
+        (r"const auto dist = static_cast<double>\(std::distance\(([^,]+), ([^()]+)\)\);", r"const intptr_t dist = (\2) - (\1);", 1),
+        (r"std::ranges::next\(([^,]+), static_cast<std::intptr_t>\((\w+) \* (\w+)\), ([^()]+)\);", r"ranges_next(\1, stub_trunc_mul(\2, \3), \4);", 1),
+        (r"^(  while \([^\n]*\)) \{", r"\1\n  LOOP_CONTRACT\n  {", 1),
     ]
     body, log = apply_rules(body, rules)
     if re.search(r"std::|auto|static_cast|wo\(", body):
         raise RuleError("untranslated C++ remains in extracted binary_interval_search:\n" + body)
     return body, log
+
+
+def bis_c_file():
+    body, log = extract_bis()
+    src = ('#include "bis_contract.h"\n\nconst elem_t *bis(const elem_t *r, size_t n, elem_t t)\nBIS_CONTRACT\n{\n' + body +
+           '\n}\n\nvoid h_bis(void)\n{\n  const elem_t *r; size_t n; elem_t t;\n  bis(r, n, t);\n}\n')
+    return src, log
 
 
 if __name__ == "__main__":
